@@ -269,7 +269,7 @@ def _rmax(a, b):
 def shapes(tier):
     out = []
     calls = ['height', 'hashes', 'rawtxs', 'rawtxs_strict', 'error', 'block', 'mempool']
-    kmax = 3 if tier == 'quick' else 5
+    kmax = 3 if tier == 'quick' else 4
     for call in calls:
         for k in range(0, kmax + 1):
             for urls in (1, 2, 3):
@@ -279,7 +279,7 @@ def shapes(tier):
                     continue
                 out.append({'k': k, 'urls': urls, 'call': call})
     if tier == 'thorough':
-        out += [{'k': 6, 'urls': 2, 'call': 'height'}, {'k': 7, 'urls': 3, 'call': 'height'}]
+        out += [{'k': 5, 'urls': 2, 'call': 'height'}]
     return out
 
 
@@ -289,11 +289,11 @@ KERNELS = [
            encodes=['electrumx/server/daemon.py:Daemon._send', '_send_single', '_send_vector', '_post_json',
                     '_get_to_file', 'failover', 'current_url', 'height', 'block_hex_hashes', 'getrawtransactions',
                     'mempool_hashes', 'get_block'],
-           bounds='k <= 3 (quick) / 5 (+6, 7 for height) consecutive faults, each any of the 8 handled kinds '
+           bounds='k <= 3 (quick) / 4 (5 for height with two URLs) consecutive faults, each any of the 8 handled kinds '
                   '(solver-enumerated); 1..3 URLs; init_retry, max_retry any reals with 0 < init <= max <= 16 init',
            outside='longer fault sequences; max_retry > 16 init; a daemon that answers batches out of order',
            assumptions=['aiohttp session, asyncio.sleep, worker thread and the block file are stubs',
                         'real-number arithmetic stands for binary floating point (doubling, min and max are exact '
                         'in both)', 'logging is a no-op'],
-           witnesses=1),
+           witnesses=1, split_depth=3),
 ]
